@@ -1,0 +1,39 @@
+//go:build verif
+
+// Contracts of this package for the deductive verifier in /verif (vcgo).
+// Comment-only; compiled only with -tags verif.
+
+package client
+
+// ---- the upstream listener reconnects unless closed locally (C18, C16) ---------------
+// Accept reports ErrClosed only when the listener itself was closed; a session
+// the server ended (shutdown, crash, token expiry) makes it reconnect, and the
+// loop goes round only after a successful reconnect.
+
+// ctxErr(c): what c.Err() returns; taken as stable for the duration of one call.
+//@ uninterp ctxErr(c context.Context) error
+//@ extern-iface context.(Context).Err
+//@   ensures[snapshot] result == ctxErr(self)
+
+//@ ghost gReconnects int
+//@ ghost gConnectErr error
+
+//@ nonnil listener.closeCtx listener.logger listener.sess
+//@ immutable listener.closeCtx listener.logger
+
+//@ contract (*listener).connect
+//@   trusted dials the server with backoff until the context ends (client/upstream.go, backoff: not under contract)
+//@   modifies-all listener.sess $gReconnects $gConnectErr
+//@   ghost-set gReconnects = old(gReconnects) + 1
+//@   ghost-set gConnectErr = result
+//@   ensures[session] result == nil ==> l.sess != nil
+
+//@ contract (*listener).AcceptWithContext
+//@   serves C18 C16
+//@   requires[context] ctx != nil
+//@   requires[connected] l.sess != nil
+//@   ensures[conn-or-error] result1 == nil ==> result0 != nil
+//@   ensures[closed-only-locally] result1 == ErrClosed && ctxErr(ctx) == nil && !(gReconnects > old(gReconnects) && gConnectErr != nil) ==> ctxErr(l.closeCtx) != nil
+//@   ensures[no-conn-on-error] result1 != nil ==> result0 == nil
+//@   loop 1 invariant[reconnected] gReconnects >= old(gReconnects) && (gReconnects > old(gReconnects) ==> gConnectErr == nil)
+//@   loop 1 invariant[session] l.sess != nil
